@@ -40,6 +40,7 @@ type endRes struct {
 	NReadOps  int
 	NWriteOps int
 	Timeouts  int
+	SeenSNI   []string // ServerName seen by certificate/config callbacks
 }
 
 type ekmArg struct {
